@@ -8,7 +8,9 @@ import (
 	"io"
 	"math/rand"
 	"os"
+	"path/filepath"
 	"regexp"
+	"sort"
 	"strings"
 	"time"
 
@@ -108,6 +110,18 @@ func driveLoad(args []string) int {
 		srcs = append(srcs, [2]string{string(src), name})
 		big++
 	}
+	// recorded version-1.1 files (the corpus of C14: pinned-build dumps and files assembled by the specification, with NOP, LOOP and
+	// negative-int / bool / nil constants the compiler never writes)
+	var corpusFiles [][]byte
+	if dir := op.str("corpus", ""); dir != "" {
+		names, _ := filepath.Glob(filepath.Join(dir, "*.bcb"))
+		sort.Strings(names)
+		for _, nm := range names {
+			if b, err := os.ReadFile(nm); err == nil && len(b) <= maxLen {
+				corpusFiles = append(corpusFiles, b)
+			}
+		}
+	}
 	var evs []loadEv
 	setSink(func(e bcl.VerifEvent) {
 		if e.G == "D" && e.Kind == "ld" {
@@ -115,25 +129,33 @@ func driveLoad(args []string) int {
 		}
 	})
 	defer setSink(nil)
-	for i, sn := range srcs {
-		var p *bcl.Prog
-		var perr error
-		func() {
-			defer func() { recover() }()
-			p, perr = bcl.Parse([]byte(sn[0]), sn[1], bcl.OptLogger(io.Discard), bcl.OptOutput(io.Discard))
-		}()
-		if perr != nil || p == nil {
-			continue
+	for i := 0; i < len(srcs)+len(corpusFiles); i++ {
+		var file []byte
+		sn := [2]string{"(corpus file)", ""}
+		isBig := false
+		if i >= len(srcs) {
+			file = corpusFiles[i-len(srcs)]
+		} else {
+			sn = srcs[i]
+			var p *bcl.Prog
+			var perr error
+			func() {
+				defer func() { recover() }()
+				p, perr = bcl.Parse([]byte(sn[0]), sn[1], bcl.OptLogger(io.Discard), bcl.OptOutput(io.Discard))
+			}()
+			if perr != nil || p == nil {
+				continue
+			}
+			var b bytes.Buffer
+			if p.Dump(&b) != nil {
+				continue
+			}
+			isBig = i >= len(srcs)-big
+			if b.Len() > maxLen && !isBig {
+				continue
+			}
+			file = b.Bytes()
 		}
-		var b bytes.Buffer
-		if p.Dump(&b) != nil {
-			continue
-		}
-		isBig := i >= len(srcs)-big
-		if b.Len() > maxLen && !isBig {
-			continue
-		}
-		file := b.Bytes()
 		if !s.note(file, true, []byte(fmt.Sprintf("%q", sn[0]))) {
 			continue
 		}
@@ -148,6 +170,13 @@ func driveLoad(args []string) int {
 			cuts = append(cuts, r.Intn(len(file)))
 		}
 		cuts = append(cuts, len(file)-1, len(file)-1-r.Intn(1+len(file)/4))
+		if len(file) <= 64 {
+			// small files: every cut (every boundary between two fields among them)
+			cuts = cuts[:2]
+			for c := 0; c < len(file); c++ {
+				cuts = append(cuts, c)
+			}
+		}
 		for _, c := range cuts {
 			if c < 0 {
 				c = 0
